@@ -158,12 +158,16 @@ type zzC13KV struct {
 // values only through equality and as child indexes, so every key set is a
 // per-position relabelling of a canonically labelled one.
 type zzC13Keys struct {
-	max  [4]byte // per nibble position: largest label used so far + 1 (0 = none yet)
-	lens int     // number of key-length choices (1 = one byte only, 2 = one or two bytes)
+	max   [4]byte // per nibble position: largest label used so far + 1 (0 = none yet)
+	lens  int     // number of key-length choices (1 = one byte only, 2 = one or two bytes)
+	fixed int     // if non-zero: the length of the next key
 }
 
 func (g *zzC13Keys) next(name string) []byte {
-	l := zzverif.Choose(name+".len", g.lens) + 1
+	l := g.fixed
+	if l == 0 {
+		l = zzverif.Choose(name+".len", g.lens) + 1
+	}
 	k := make([]byte, l)
 	for i := 0; i < l; i++ {
 		hi, lo := zzverif.U8(name+".hi"), zzverif.U8(name+".lo")
@@ -272,10 +276,20 @@ var (
 
 // resolveHash: lookup in the harness node table (the real one reads the node database)
 func zzC13Resolve(t *Trie, n hashNode, prefix []byte) (node, error) {
-	if nd, ok := zzC13Store[n[0]]; ok {
-		return nd, nil
+	nd, ok := zzC13Store[n[0]]
+	if !ok {
+		return nil, &MissingNodeError{Path: prefix}
 	}
-	return nil, &MissingNodeError{Path: prefix}
+	// what the node database does with a committed node: it keeps the collapsed form (compact
+	// keys) simplified, and expands it again when the node is loaded (real simplifyNode / expandNode)
+	var collapsed node = nd
+	switch x := nd.(type) {
+	case *shortNode:
+		collapsed = &shortNode{Key: hexToCompact(x.Key), Val: x.Val}
+	case *fullNode:
+		collapsed = x.copy()
+	}
+	return expandNode(n, simplifyNode(collapsed), 0), nil
 }
 
 // zzC13Hashify replaces every non-root interior node by a hash reference into the node
@@ -348,18 +362,29 @@ func zzC13SameR(a, b node) bool {
 // canonical trie of the surviving content, and lookups agree with the model.
 //
 //verif:replace (*$M/trie.Trie).resolveHash zzC13Resolve
-func zzH_C13_reopened() {
+func zzH_C13_reopened() { zzC13Reopened(zzverif.Bound("reopenedOps", 2, 3), 1) }
+
+// the same with keys of one or two bytes, so that keys are prefixes of each other and
+// branch nodes carry a value of their own
+//
+//verif:replace (*$M/trie.Trie).resolveHash zzC13Resolve
+func zzH_C13_reopened_prefix() { zzC13Reopened(zzverif.Bound("reopenedPrefixOps", 2, 2), 2) }
+
+func zzC13Reopened(ops, lens int) {
 	zzC13Store, zzC13Next = map[byte]node{}, 0
-	ops := zzverif.Bound("reopenedOps", 2, 3)
 	t := &Trie{db: new(Database)}
 	var model []zzC13KV
-	g := &zzC13Keys{lens: 1}
+	g := &zzC13Keys{lens: lens}
 	for i := 0; i < ops; i++ {
+		if lens == 2 {
+			g.fixed = 1 + i%2 // a one-byte key, then a two-byte key, ...
+		}
 		k := g.next("key")
 		v := []byte{zzverif.U8("val")}
 		t.TryUpdate(k, v)
 		model = append(model, zzC13KV{k, v})
 	}
+	g.fixed = 0
 	t.root = zzC13Hashify(t.root, true)
 	zzverif.Reach("reopened")
 	// one more operation on the reopened trie
@@ -372,7 +397,12 @@ func zzH_C13_reopened() {
 		zzverif.Assert(false, "every referenced node is in the node table")
 	}
 	model = append(model, zzC13KV{k, v})
-	q := g.next("query")
+	var q []byte
+	if lens == 2 {
+		q = model[zzverif.Choose("query.key", len(model))].k // one of the keys written so far
+	} else {
+		q = g.next("query")
+	}
 	got, err := t.TryGet(q)
 	want := zzC13ModelGet(model, q)
 	zzverif.Assert(err == nil && bytes.Equal(got, want) && (got == nil) == (want == nil), "lookup on the reopened trie returns exactly the surviving value")
